@@ -97,6 +97,16 @@ class Analysis:
                     m = c.find_method(n.attr)
                     if m is not None and m.is_property_getter and m not in out:
                         out.append(m)
+        # context managers: `with X(...)` / `async with X(...)` call X's enter/exit methods
+        for n in walk_own(fn.node):
+            if isinstance(n, (ast.With, ast.AsyncWith)):
+                for it in n.items:
+                    t = self.rs.type_of(it.context_expr, fn)
+                    for c in t.inst:
+                        for nm in ("__enter__", "__exit__", "__aenter__", "__aexit__"):
+                            g = c.find_method(nm)
+                            if g is not None and g not in out:
+                                out.append(g)
         # nested functions defined here are considered callees (closures, callbacks)
         for g in fn.nested.values():
             if g not in out:
